@@ -11,8 +11,7 @@
    Not modelled (the family restricts the calls it sends through the model accordingly):
    marks / unmark and the sticky-mark anchor scan, split_block / join_block / replace_block,
    transactions isolated at older heads (scope = Some clock), nested hydrate values in splice,
-   the GraphemeCluster encoding, counters inside text elements (the implementation's fast text
-   seek ignores them, see the family's known finding).
+   the GraphemeCluster encoding.
 
    State: the ops the transaction sees (document ops ++ pending ops, kept ascending by id — a new op
    carries the greatest id, so appending keeps the order), actor and start_op.
@@ -76,6 +75,10 @@ Definition lookup_type (ops : list op) (obj : opid) : option objtype :=
 (* OpBuilder::width: 1 in a list; in a text the width of the winning value's string *)
 Definition elem_w (e : enc) (t : objtype) (r : regobs) : N :=
   match t with OText => str_width e (elem_text r) | _ => 1 end.
+
+(* Automerge::length_for of a sequence: the sum of the element widths *)
+Definition seq_width (e : enc) (t : objtype) (els : list (opid * regobs)) : N :=
+  fold_right (fun er s => elem_w e t (snd er) + s) 0 els.
 
 (* seek_ops_by_index: the first visible element whose span [start, start+width) contains [index];
    returns element, register, start, width and the number of visible elements before it *)
@@ -268,13 +271,15 @@ Definition step (e : enc) (t : tx) (c : call) : eres tx :=
   | CInc obj p z =>
     with_obj t obj (fun ty => drop_id (local_op e t obj ty p (AInc z)))
   | CDelete obj p =>
+    (* a key addresses a map, an index a sequence (as put checks); on a text there must be something at the
+       index (length_for), then delete is inner_splice(del = 1) *)
     with_obj t obj (fun ty =>
-      match ty with
-      | OText => match p with
-                 | PSeq i => inner_splice e t obj OText i 1 []
-                 | PMap _ => EErr EInvalidOp
-                 end
-      | _ => drop_id (local_op e t obj ty p ADel)
+      match p, ty with
+      | PMap _, OMap | PMap _, OTable | PSeq _, OList => drop_id (local_op e t obj ty p ADel)
+      | PSeq i, OText =>
+        if seq_width e OText (seq_elems (tx_all t) obj) <=? i then EErr EInvalidIndex
+        else inner_splice e t obj OText i 1 []
+      | _, _ => EErr EInvalidOp
       end)
   | CSplice obj i del vs =>
     with_obj t obj (fun ty =>
